@@ -193,21 +193,29 @@ def stated (ws : List String) (k : String) : Option String :=
   if v = "" ∨ v = "-" then none else some v
 
 structure BpLine where
-  cand : BpCand Id
+  cand : BpCand
+  /-- ground truth: the id in the spec of the `.sym` file -/
+  own : DebugId Id
   mark : String
   stale : Bool
+
+/-- `DebugId::from_breakpad` on the id token of a MODULE line -/
+def parseTok (t : List UInt8) : Option (DebugId Id) :=
+  parseDid (String.ofList (t.map fun b => Char.ofNat b.toNat))
 
 def bpLines (ls : List String) : Option (List BpLine) :=
   ls.mapM fun l =>
     match words l with
     | "cand" :: _ref :: rest => do
       let own ← parseDid (key rest "own")
-      let side : Load (DebugId Id) ←
-        (let v := key rest "side"
-         if v = "open" then some .unreadable
+      let head ← unhex? (key rest "symhead").toList
+      let v := key rest "side"
+      let side : Load (List UInt8) ←
+        (if v = "open" then some .unreadable
          else if v = "parse" then some .unparsable
-         else (strip? "ok:" v).bind parseDid |>.map .ok)
-      pure ⟨⟨own, side⟩, key rest "mark", key rest "stale" = "1"⟩
+         else if v.startsWith "ok:" then (unhex? (key rest "sideinfo").toList).map .ok
+         else none)
+      pure ⟨⟨head, side⟩, own, key rest "mark", key rest "stale" = "1"⟩
     | _ => none
 
 /-- `cache <ref> <view>` lines of a `dyld` case: what looking for the dylib in that cache yields, reduced to the
@@ -266,7 +274,7 @@ def model (ls : List String) : List String :=
     | ["symidx", r] =>
       match parseDid r, bpLines rest with
       | some d, some ls =>
-        match loadSymbolMapBp native (some d) (ls.map (·.cand)) with
+        match loadSymbolMapBp parseTok native (some d) (ls.map (·.cand)) with
         | (.ok k m, _) =>
           -- lookups are served from the text of candidate `k` (`BpCand.content`)
           [s!"ok {showDid m.debugId} from {k} shows {((ls[k]?).map (·.mark)).getD "?"}"]
@@ -426,12 +434,12 @@ def judge (ops impl : List String) : Bool × String :=
           if id ≠ showDid req then (false, s!"[wrong-id] requested {showDid req}, the symbol map reports {id}")
           else
             -- the text that serves the lookups is a `.sym` file's; it must be a file of the requested build
-            let ofBuild := ls.filter fun b => b.cand.own == req
+            let ofBuild := ls.filter fun b => b.own == req
             match ls[nat! k]? with
             | none => (false, s!"[not-a-candidate] result attributed to candidate {k} of {ls.length}")
             | some b =>
-              if b.cand.own != req then
-                (false, s!"[stale-symindex] candidate {k} is a .sym of build {showDid b.cand.own}; with the .symindex next to it the map reports {id} and shows {mk}")
+              if b.own != req then
+                (false, s!"[stale-symindex] candidate {k} is a .sym of build {showDid b.own}; with the .symindex next to it the map reports {id} and shows {mk}")
               else if ofBuild.any fun b => b.mark = mk then (true, "ok")
               else (false, s!"[wrong-content] the map reports {id} but shows {mk}, which no candidate of that build shows")
         | "err" :: _ => (true, "ok")
